@@ -138,7 +138,9 @@ def gen_spec(rnd):
         return {"txt": pre + R.WD_ABBR[w - 1], "f": ("field", "wday", w, sign), "inputs": ("d", "dt", "d:ymcw", "d:ywd", "d:ldn", "d:mdn")}
     if r < 32:
         m = rnd.randrange(1, 13)
-        return {"txt": pre + R.MON_ABBR[m - 1], "f": ("field", "mon", m, sign), "inputs": ("d", "dt")}
+        # the month by name or by number (3mo)
+        txt = pre + R.MON_ABBR[m - 1] if rnd.random() < 0.6 else "%s%dmo" % (pre, m)
+        return {"txt": txt, "f": ("field", "mon", m, sign), "inputs": ("d", "dt")}
     if r < 46:
         d = rnd.choice((1, 15, 28, 29, 30, 31, rnd.randrange(1, 32)))
         return {"txt": "%s%dd" % (pre, d), "f": ("field", "dom", d, sign), "inputs": ("d", "dt")}
